@@ -23,6 +23,18 @@ type faultReader struct {
 	chunk    int
 	calls    int
 	withData bool // deliver the last chunk TOGETHER with the error (n > 0, err != nil)
+	err      error // the error to fail with (default errFault)
+}
+
+// errWrapsEOF is a read failure whose error chain contains io.EOF (e.g. an *os.PathError around it):
+// package io is explicit that only io.EOF itself signals the end of the data.
+var errWrapsEOF = fmt.Errorf("injected read fault: %w", io.EOF)
+
+func (f *faultReader) fault() error {
+	if f.err != nil {
+		return f.err
+	}
+	return errFault
 }
 
 func (f *faultReader) Read(p []byte) (int, error) {
@@ -42,13 +54,13 @@ func (f *faultReader) Read(p []byte) (int, error) {
 		f.pos += n
 		if f.withData && f.pos >= len(f.data) {
 			f.failed = true
-			return n, errFault
+			return n, f.fault()
 		}
 		return n, nil
 	}
 	if f.forever || !f.failed {
 		f.failed = true
-		return 0, errFault
+		return 0, f.fault()
 	}
 	return 0, io.EOF
 }
